@@ -7,8 +7,10 @@
 (* specification predicts (scheduled mode), and is adopted in any case.                          *)
 EXTENDS ParBnB, DDContract, DominanceStore, Json, IOUtils
 Rec == ndJsonDeserialize(IOEnv.TRACE)
-VARIABLES l, I, HT, cfg, run, role, level, P, wk, fired, primalMax, store, devs
-vars == <<l, I, HT, cfg, run, role, level, P, wk, fired, primalMax, store, devs>>
+VARIABLES l, I, HT, cfg, run, role, level, P, wk, fired, primalMax, store, devs,
+          ever,      \* <<depth, q>> -> largest value with which that sub-problem was ever put on the fringe in this run
+          pendW      \* thresholds written since the last quiescent point (C09 unsound-threshold)
+vars == <<l, I, HT, cfg, run, role, level, P, wk, fired, primalMax, store, devs, ever, pendW>>
 None == <<>>
 MaxW == 17
 Add(d, tags) == IF Cardinality(d) < 60 THEN d \cup {<<t, l, run, "-">> : t \in tags} ELSE d
@@ -19,7 +21,7 @@ W0 == [node |-> None, sec |-> "-", bev |-> NegInf, phase |-> "idle", cand |-> No
 EmptyP == [fringe |-> EmptyBag, table |-> CEmpty, ongoing |-> 0, explored |-> 0, bestLb |-> NegInf, hasSol |-> FALSE, bestUb |-> PosInf, abort |-> FALSE,
            open |-> <<>>, ongoingBy |-> <<>>, first |-> 0, ubVec |-> <<>>]
 Init == /\ l = 1 /\ I = None /\ HT = None /\ cfg = None /\ run = 0 /\ role = "-" /\ level = "full" /\ P = EmptyP
-        /\ wk = [w \in 0..MaxW |-> W0] /\ fired = FALSE /\ primalMax = NegInf /\ store = <<>> /\ devs = {}
+        /\ wk = [w \in 0..MaxW |-> W0] /\ fired = FALSE /\ primalMax = NegInf /\ store = <<>> /\ devs = {} /\ ever = <<>> /\ pendW = {}
 Ev(e) == l <= Len(Rec) /\ Rec[l].ev = e /\ l' = l + 1
 Me == Rec[l].w
 
@@ -29,10 +31,23 @@ TReset ==
      /\ I' = e.inst /\ HT' = (IF e.inst = I THEN HT ELSE HTable(e.inst))
      /\ cfg' = e.cfg /\ run' = e.run /\ role' = e.role /\ level' = e.level
      /\ P' = [EmptyP EXCEPT !.open = [d \in 0..e.inst.n |-> 0], !.ongoingBy = [d \in 0..e.inst.n |-> 0], !.ubVec = [w \in 1..e.cfg.nspawn |-> Idle]]
-     /\ wk' = [w \in 0..MaxW |-> W0] /\ fired' = FALSE /\ primalMax' = NegInf /\ store' = <<>>
+     /\ wk' = [w \in 0..MaxW |-> W0] /\ fired' = FALSE /\ primalMax' = NegInf /\ store' = <<>> /\ ever' = <<>> /\ pendW' = {}
      /\ devs' = (IF e.inst = I \/ WellFormed(I', HT') THEN devs ELSE Add(devs, {"HARNESS ill-formed-instance"}))
-Same == UNCHANGED <<I, HT, cfg, run, role, level, store>>
-SameBut == UNCHANGED <<I, HT, cfg, run, role, level>>
+Same2 == UNCHANGED <<I, HT, cfg, run, role, level, store>>
+Same == Same2 /\ UNCHANGED <<ever, pendW>>
+SameBut == UNCHANGED <<I, HT, cfg, run, role, level, ever, pendW>>
+\* ---- C09, threshold soundness (see TraceSeq): a recorded threshold (d, q) -> theta is sound iff every completion of q from theta (theta - 1
+\* when not marked explored) is worth no more than the incumbent or runs through a sub-problem that was enqueued with at least the value the
+\* completion reaches it with.  Thresholds of one worker may rest on thresholds of another one whose cut-set is not enqueued yet: they are
+\* judged at quiescent points (no node in progress) and at the end of an uninterrupted run.
+Monitored == Full /\ cfg.cache /\ ~cfg.dom /\ StaticOrder(I) /\ ~I.long_arcs
+RECURSIVE Useless(_, _, _, _)
+Useless(d, q, a, lb) ==
+  IF Plus(a, HStar(I, HT, d, q)) <= lb THEN TRUE
+  ELSE IF <<d, q>> \in DOMAIN ever /\ a <= ever[<<d, q>>] THEN TRUE
+  ELSE IF d >= I.n THEN FALSE
+  ELSE \A x \in DomQ(I, d, q) : Useless(d + 1, TrQ(I, d, q, x), Plus(a, CoQ(I, d, q, x)), lb)
+ThresholdTags(lb) == Tag(Monitored /\ \E w \in pendW : ~Useless(w.d, w.q, IF w.e THEN w.v ELSE w.v - 1, lb), "C09 unsound-threshold")
 
 TPrimal == /\ Ev("set_primal") /\ P' = PPrimal(P, Rec[l].value) /\ primalMax' = Max2(primalMax, Rec[l].value)
            /\ devs' = Add(devs, Tag(Rec[l].lb_after # P'.bestLb, "C14 set-primal-value"))
@@ -61,14 +76,16 @@ Adopt(e) == [P EXCEPT !.ongoing = e.ongoing, !.bestLb = e.best_lb, !.hasSol = (P
 TLocked ==
   /\ Ev("locked")
   /\ LET e == Rec[l]  w == Me  P1 == Adopt(e) IN
-     /\ devs' = Add(devs, SnapTags(e))
      /\ wk' = [wk EXCEPT ![w].sec = e.site, ![w].parked = FALSE, ![w].cand = None,
                          ![w].node = IF e.site = "finish" THEN None ELSE @, ![w].phase = IF e.site = "finish" THEN "idle" ELSE @]
      /\ P' = CASE e.site = "update_best" -> PUpdate(P1, wk[w].bev)
                [] e.site = "finish" -> IF wk[w].node # None THEN PFinish(P1, w, wk[w].node.depth) ELSE P1
                [] e.site = "abort" -> IF wk[w].node # None THEN [P1 EXCEPT !.abort = TRUE, !.bestUb = PAbortUb(P1, w, wk[w].node.ub)] ELSE [P1 EXCEPT !.abort = TRUE]
                [] OTHER -> P1
-  /\ Same /\ UNCHANGED <<fired, primalMax>>
+     /\ LET quiet == e.site = "finish" /\ P'.ongoing = 0 /\ ~fired /\ ~P'.abort IN
+        /\ devs' = Add(devs, SnapTags(e) \cup (IF quiet THEN ThresholdTags(P'.bestLb) ELSE {}))
+        /\ pendW' = (IF e.site = "finish" /\ P'.ongoing = 0 THEN {} ELSE pendW)
+  /\ Same2 /\ UNCHANGED <<fired, primalMax, ever>>
 
 \* ------------------------------------------------------------------ fringe operations (always under the lock)
 LenTags(its) == Tag(FLen(its) # Rec[l].len, "C11 len")
@@ -82,7 +99,9 @@ TPush ==
      /\ devs' = Add(devs, LenTags(f2)
                   \* enqueue_cutset: bound capped by the parent's and still able to beat the incumbent
                   \cup Tag(Full /\ w # 0 /\ parent # None /\ (sp.ub > parent.ub \/ sp.ub <= P.bestLb), "DIV enqueued-node-bound"))
-  /\ Same /\ UNCHANGED <<wk, fired, primalMax>>
+     /\ ever' = (LET k == <<sp.depth, Q(I, sp.st)>> IN
+                 [j \in (DOMAIN ever) \cup {k} |-> IF j = k THEN (IF k \in DOMAIN ever THEN Max2(ever[k], sp.value) ELSE sp.value) ELSE ever[j]])
+  /\ Same2 /\ UNCHANGED <<wk, fired, primalMax, pendW>>
 Live(n, lb, table) == SpOpt(I, HT, n) = Opt(I, HT) /\ n.ub > lb /\ (~cfg.cache \/ MustExplore(table, n))
 Flying == {wk[w].node : w \in {v \in 1..cfg.nspawn : wk[v].phase = "work"}}
 RouteTags(P1, taken) ==
@@ -150,8 +169,11 @@ TCGet ==
               ELSE IF got = NoTh THEN [P EXCEPT !.table = [k \in (DOMAIN P.table) \ {<<e.depth, e.st>>} |-> P.table[k]]]
               ELSE [P EXCEPT !.table = [k \in (DOMAIN P.table) \cup {<<e.depth, e.st>>} |-> IF k = <<e.depth, e.st>> THEN got ELSE P.table[k]]])
   /\ Same /\ UNCHANGED <<wk, fired, primalMax>>
-TCUpd == /\ Ev("cupd") /\ LET e == Rec[l] IN P' = (IF cfg.cache THEN [P EXCEPT !.table = CUpd(P.table, e.depth, e.st, <<e.value, e.explored>>)] ELSE P)
-         /\ Same /\ UNCHANGED <<wk, fired, primalMax, devs>>
+TCUpd == /\ Ev("cupd")
+         /\ LET e == Rec[l] IN
+              /\ P' = (IF cfg.cache THEN [P EXCEPT !.table = CUpd(P.table, e.depth, e.st, <<e.value, e.explored>>)] ELSE P)
+              /\ pendW' = (IF Monitored THEN pendW \cup {[d |-> e.depth, q |-> Q(I, e.st), v |-> e.value, e |-> e.explored]} ELSE pendW)
+         /\ Same2 /\ UNCHANGED <<wk, fired, primalMax, devs, ever>>
 TCClearLayer == /\ Ev("cclear_layer") /\ P' = [P EXCEPT !.table = CClearLayer(P.table, Rec[l].depth), !.first = Max2(P.first, Rec[l].depth + 1)]
                 /\ devs' = Add(devs, Tag(Full /\ Rec[l].depth \in DOMAIN P.open /\ P.open[Rec[l].depth] + P.ongoingBy[Rec[l].depth] # 0, "DIV cache-layer-cleared-while-active"))
                 /\ Same /\ UNCHANGED <<wk, fired, primalMax>>
@@ -218,8 +240,10 @@ TReturn ==
          endTags == IF Full /\ ~r.panicked THEN Tag(P.bestLb # r.best_lb, "DIV incumbent-differs-from-trace") \cup Tag(P.bestUb # r.best_ub, "DIV upper-bound-differs-from-trace")
                                                 \cup Tag(\E w \in 1..cfg.nspawn : ~wk[w].exited, "DIV worker-did-not-exit")
                     ELSE {} IN
-     devs' = (IF Cardinality(devs) < 60 THEN devs \cup {<<t, l, run, Sig(r)>> : t \in RetTags(r) \cup endTags} ELSE devs)
-  /\ Same /\ UNCHANGED <<P, wk, fired, primalMax>>
+     devs' = (IF Cardinality(devs) < 60 THEN devs \cup {<<t, l, run, Sig(r)>> : t \in RetTags(r) \cup endTags
+                                                       \cup (IF r.panicked \/ r.cutoff_fired \/ r.watchdog \/ fired \/ P.abort THEN {} ELSE ThresholdTags(P.bestLb))} ELSE devs)
+  /\ pendW' = {}
+  /\ Same2 /\ UNCHANGED <<P, wk, fired, primalMax, ever>>
 
 Next == TReset \/ TPrimal \/ TDQuery \/ TNoop \/ TCutoff \/ TLocked \/ TPush \/ TPop \/ TPopNone \/ TFClear \/ TWorkload \/ TWait
         \/ TCGet \/ TCUpd \/ TCClearLayer \/ TCClear \/ TCompile \/ TCompiled \/ TCutset \/ TExit \/ TStuck \/ TReturn
